@@ -166,6 +166,11 @@ func (c *CheckCtx) Finish(wall time.Duration) int {
 	knownPrinted := map[string]bool{}
 	keys := append([]string{}, c.order...)
 	sort.Strings(keys)
+	// nondeterminism under identical schedules first: it explains why other classes may not replay
+	sort.SliceStable(keys, func(a, b int) bool {
+		return strings.HasSuffix(keys[a], "/control") && !strings.HasSuffix(keys[b], "/control")
+	})
+	nondet := false
 	nViol := 0
 	for _, k := range keys {
 		f := c.found[k]
@@ -183,14 +188,37 @@ func (c *CheckCtx) Finish(wall time.Duration) int {
 		reported++
 		// confirm by immediate replay, then minimise
 		sc := f.Scenario
-		out, err := ExecuteScenario(c.Env, sc)
-		if err != nil {
-			fmt.Fprintf(c.Out, "ERROR property=%s replay of %s failed: %v\n", c.Prop, k, err)
+		// A difference between two executions under the SAME schedule (class .../control) is
+		// nondeterminism that no seam owns: it is a violation by itself but replays only
+		// statistically, so it gets several attempts and is not minimised step by step.
+		uncontrolled := strings.HasSuffix(f.V.Class, "/control")
+		attempts := 1
+		if uncontrolled {
+			attempts = 20
+		}
+		reproduced := 0
+		for a := 0; a < attempts && reproduced == 0; a++ {
+			out, err := ExecuteScenario(c.Env, sc)
+			if err != nil {
+				fmt.Fprintf(c.Out, "ERROR property=%s replay of %s failed: %v\n", c.Prop, k, err)
+				return 2
+			}
+			if hasKey(out.Violations, k) {
+				reproduced++
+			}
+		}
+		if reproduced == 0 {
+			if nondet {
+				fmt.Fprintf(c.Out, "  (also seen %dx, not replayable because of the nondeterminism reported above: %s: %s)\n", f.Count, k, f.V.Detail)
+				reported--
+				nViol--
+				continue
+			}
+			fmt.Fprintf(c.Out, "ERROR property=%s violation %s did not reproduce on immediate replay (%d attempts; first: %s)\n", c.Prop, k, attempts, f.V.Detail)
 			return 2
 		}
-		if !hasKey(out.Violations, k) {
-			fmt.Fprintf(c.Out, "ERROR property=%s violation %s did not reproduce on immediate replay (first: %s)\n", c.Prop, k, f.V.Detail)
-			return 2
+		if uncontrolled {
+			nondet = true
 		}
 		_ = os.MkdirAll(c.ReplayDir, 0o755)
 		name := fmt.Sprintf("%s-%s-%s-%d-%d", c.Prop, f.V.Oracle, sanitize(f.V.Class), c.Seed, f.SimIndex)
@@ -199,7 +227,12 @@ func (c *CheckCtx) Finish(wall time.Duration) int {
 		}
 		orig := filepath.Join(c.ReplayDir, name+".orig.json")
 		writeJSON(orig, &ReplayFile{Version: 1, Property: c.Prop, Oracle: f.V.Oracle, Class: f.V.Class, Detail: f.V.Detail, Seed: c.Seed, SimIndex: f.SimIndex, Scenario: sc})
-		min := Minimise(c.Env, sc, k, 60*time.Second)
+		min := sc
+		if uncontrolled {
+			min = keepControlVariants(sc)
+		} else {
+			min = Minimise(c.Env, sc, k, 60*time.Second)
+		}
 		detail := f.V.Detail
 		if o2, err := ExecuteScenario(c.Env, min); err == nil {
 			for _, v := range o2.Violations {
@@ -220,6 +253,19 @@ func (c *CheckCtx) Finish(wall time.Duration) int {
 	}
 	c.Env.Stats.Add("violations", int64(nViol))
 	return exit
+}
+
+// keepControlVariants reduces a compare scenario to the base and its control twin.
+func keepControlVariants(sc *Scenario) *Scenario {
+	out := cloneScenario(sc)
+	var keep []Variant
+	for i, v := range out.Variants {
+		if i == 0 || strings.HasPrefix(v.Name, "control") {
+			keep = append(keep, v)
+		}
+	}
+	out.Variants = keep
+	return out
 }
 
 func hasKey(vs []Violation, k string) bool {
